@@ -55,6 +55,16 @@ class C11(Prop):
 
     def oracle(self, name, ops, go):
         out = []
+        # "conversely ... is accepted": the validation model (the proved `validateConfig`, which accepts exactly the entries
+        # assembled from the documented forms with unique ids per section, one backend, resolvable references, no cycle) is
+        # the reference: what it accepts must not be rejected
+        lean = getattr(self, "lean_out", None) or go
+        for k, (op, g) in enumerate(zip(ops, go)):
+            if op.startswith("cfg.load") and k < len(lean) and kv(lean[k]).get("verdict") == "ok" and str(kv(g).get("verdict", "")).startswith("err"):
+                s0 = max(i for i in range(k + 1) if ops[i].startswith("#case"))
+                out.append(viol(f"a configuration assembled from documented forms only (accepted by the validation model) was rejected: "
+                                f"{kv(g).get('verdict')} {kv(g).get('ent', '')}", ops[s0:k + 1], go[s0:k + 1]))
+                break
         for cops, cgo in cases(ops, go):
             verdict = None
             for i, (op, g) in enumerate(zip(cops, cgo)):
